@@ -988,7 +988,11 @@ _INTERNALS = st.sampled_from(
     + [[{"id": "Trans-AT-KS"}]] * 4
     + [[{"id": "Trans-AT-KS", "in": [{"id": sub}]}] for sub in ("bOH", "DB", "ST", "a-Me_OH")]
     + [[{"id": sub}] for sub in KS_SUBTYPES] * 2
-    + [[{"id": "Trans-AT-KS"}, {"id": "Modular-KS"}], [{"id": "Iterative-KS"}, {"id": "Hybrid-KS"}]])
+    + [[{"id": "Trans-AT-KS"}, {"id": "Modular-KS"}], [{"id": "Iterative-KS"}, {"id": "Hybrid-KS"}],
+       [{"id": "Trans-AT-KS"}, {"id": "Trans-AT-KS"}], [{"id": "Enediyne-KS"}, {"id": "Trans-AT-KS"}]])
+_PLAIN_KS = st.sampled_from(
+    [[]] * 12 + [[{"id": sub}] for sub in KS_SUBTYPES]
+    + [[{"id": "Trans-AT-KS"}, {"id": "Modular-KS"}], [{"id": "Iterative-KS"}, {"id": "Trans-AT-KS"}]])
 _EXTRAS = st.sampled_from(NON_MODULE + SPECIAL)
 
 
@@ -1004,6 +1008,10 @@ def _named(draw, name: str) -> dict:
 def _token(draw, token: str) -> dict:
     dom = token_domain(token, 0)
     del dom["s"], dom["e"]
+    if token == "KS":
+        internal = draw(_PLAIN_KS)
+        if internal:
+            dom["in"] = internal
     return dom
 
 
@@ -1016,12 +1024,12 @@ def _mutated(draw, tokens) -> list:
     doms = []
     rolls = draw(st.lists(st.integers(0, 24), min_size=len(tokens), max_size=len(tokens)))
     for token, roll in zip(tokens, rolls):
-        if roll == 0:
+        if roll == 22:
             continue
-        if roll == 1:
+        if roll == 23:
             doms.append(_named(draw, draw(_NAMES)))
         dom = _token(draw, token)
-        if roll == 2:
+        if roll == 24:
             dom = _named(draw, draw(st.sampled_from(CLASSES[CLASS_OF[dom["id"]]])))
         doms.append(dom)
     return doms
@@ -1049,13 +1057,14 @@ def _positioned(draw, doms: list, name: str, allow_disorder: bool = True) -> dic
     """ start positions by construction: increasing, in one gene in ten some equal; input order rarely shuffled """
     count = len(doms)
     mode = draw(st.integers(0, 19)) if allow_disorder and count > 1 else 19
-    gaps = draw(st.lists(st.integers(0 if mode <= 1 else 1, 3 if mode <= 1 else 150), min_size=count, max_size=count))
+    ties = mode in (7, 8)
+    gaps = draw(st.lists(st.integers(0 if ties else 1, 3 if ties else 150), min_size=count, max_size=count))
     pos = 5
     out = []
     for dom, gap in zip(doms, gaps):
         pos += gap
         out.append(dict(dom, s=pos, e=pos + 20 + (gap * 37 + len(out) * 11) % 90))
-    if mode in (2, 3):
+    if mode in (12, 13):
         out = draw(st.permutations(out))
     return {"name": name, "doms": list(out)}
 
@@ -1119,21 +1128,21 @@ def pipeline_specs(draw):
     count = draw(st.sampled_from([2, 2, 3, 3, 4]))
     strand = draw(st.sampled_from([1, 1, -1]))
     strands = [strand] * count
-    if draw(st.integers(0, 5)) == 0:
+    if draw(st.integers(0, 5)) == 3:
         strands[draw(st.integers(0, count - 1))] = -strand
     up, down, kind = _pair_strings(draw)
     chain = [up, down]          # in transcription order
     while len(chain) < count:
         roll = draw(st.integers(0, 11))
-        if roll == 0:
+        if roll == 11:
             chain.append([])
-        elif roll <= 4:
+        elif roll <= 3:
             chain.append(_templated_string(draw, 2))
         else:
             # continue the chain: the last gene gets a head appended, the new gene starts with a tail
             chain[-1] = chain[-1] + _mutated(draw, draw(st.sampled_from(HEADS)))
             chain.append(_mutated(draw, draw(st.sampled_from(TAILS))) + _templated_string(draw, 1))
-    if draw(st.integers(0, 15)) == 0:
+    if draw(st.integers(0, 15)) == 9:
         chain[draw(st.integers(0, count - 1))] = []
     if strand == -1:
         chain.reverse()
